@@ -115,6 +115,73 @@ let dispatch mode f =
       | NLt -> "lt" | NLe -> "le" | NGt -> "gt" | NGe -> "ge" | NEq -> "eq" | NNe -> "ne"
       | NTernary -> "tern" in
     String.concat "," (List.map show (compile e))
+  | "chars", (data :: chunks :: rest) ->
+    let bytes = unhex data in
+    let sc = if chunks = "" then [] else List.map (fun c -> nat_of_int (int_of_string c)) (split ',' chunks) in
+    let f = match rest with
+      | [x] when x <> "" -> Some (nat_of_int (int_of_string x))
+      | _ -> None in
+    let (cs, e) = cr_chars bytes sc f in
+    let tail = match e with CrEof -> "EOF" | CrUtf8 -> "UTF8ERR" | CrIo -> "IOERR" | CrFuel -> "FUEL" in
+    String.concat "," (List.map (fun c -> Printf.sprintf "%x" (int_of_n c)) cs @ [tail])
+  | "decode", [data] ->
+    let (cs, e) = utf8_decode (unhex data) in
+    let tail = match e with EndOk -> "EOF" | EndInvalid -> "UTF8ERR" in
+    String.concat "," (List.map (fun c -> Printf.sprintf "%x" (int_of_n c)) cs @ [tail])
+  | "intern", [kind; ops] when kind <> "meta" ->
+    let alloc n = n in
+    let gen l t =
+      (* same generator as the harness: LCG over 64-bit wrapping arithmetic *)
+      let mul = 6364136223846793005L and inc = 1442695040888963407L in
+      let x = ref (Int64.add (Int64.mul (Int64.of_int t) mul) inc) in
+      List.init l (fun _ ->
+          x := Int64.add (Int64.mul !x mul) inc;
+          let v = Int64.to_int (Int64.unsigned_rem (Int64.shift_right_logical !x 33) 26L) in
+          n_of_int (97 + v)) in
+    let it = ref (i_new alloc) in
+    let issued = ref [] in   (* (handle, text) in order of first issue *)
+    let ids = ref [] in
+    List.iter (fun op ->
+        if op <> "" then begin
+          let text =
+            if op.[0] = 'i' then unhex (after 1 op)
+            else begin
+              let spec = after 1 op in
+              let j = String.index spec ':' in
+              gen (int_of_string (String.sub spec 0 j)) (int_of_string (after (j + 1) spec))
+            end in
+          let (it', h) = intern alloc !it text in
+          it := it';
+          let rec idx k = function
+            | [] -> issued := !issued @ [(h, text)]; k
+            | (h', _) :: r -> if h' = h then k else idx (k + 1) r in
+          ids := idx 0 !issued :: !ids
+        end) (split ',' ops);
+    let stale = List.length (List.filter (fun (h, t) -> read !it h <> Some t) !issued) in
+    let bufs = !it.i_old @ [!it.i_cur] in
+    Printf.sprintf "IDS %s MOVED %d LOST 0 STALE %d NBUF %d LOCS %s CAPS %s"
+      (String.concat "," (List.rev_map string_of_int !ids))
+      (if !it.i_moved then 1 else 0) stale (List.length bufs)
+      (String.concat "," (List.map (fun (h, _) -> Printf.sprintf "%d:%d" (int_of_nat h.h_buf) (int_of_n h.h_start)) !issued))
+      (String.concat "," (List.map (fun b -> Printf.sprintf "%d/%d" (int_of_n b.b_cap) (List.length b.b_data)) bufs))
+  | "intern", ["meta"; ops] ->
+    (* handles of metadata sets = identity of their sorted pair lists *)
+    let issued = ref [] in
+    let ids = ref [] in
+    List.iter (fun op ->
+        if op <> "" then begin
+          let body = after 1 op in
+          let pairs = if body = "" then [] else
+              List.map (fun kv -> let j = String.index kv ':' in
+                         (n_of_int (int_of_string (String.sub kv 0 j)), n_of_int (int_of_string (after (j + 1) kv))))
+                (split '+' body) in
+          let key = isort pairs in
+          let rec idx k = function
+            | [] -> issued := !issued @ [key]; k
+            | k' :: r -> if k' = key then k else idx (k + 1) r in
+          ids := idx 0 !issued :: !ids
+        end) (split ',' ops);
+    Printf.sprintf "IDS %s BAD 0" (String.concat "," (List.rev_map string_of_int !ids))
   | _ -> "BADMODE"
 
 let () =
